@@ -37,6 +37,8 @@ CLASS_FILE = {"Transaction": "transaction.py", "SnapshotManager": "snapshot_mana
               "MetadataManager": "metadata_manager.py", "FileManager": "file_manager.py"}
 ATTR_CLASS = {"snapshot_manager": "SnapshotManager", "metadata_manager": "MetadataManager", "file_manager": "FileManager"}
 
+COMPUTE = "TKCompute"      # fallible code that touches neither storage nor the lock (see `Walker.compute`)
+
 STORAGE_KIND = {
     "delete_file": "TKDelete", "exists": "TKExists",
     "read_file": "TKRead", "read_file_with_etag": "TKRead", "open_file": "TKRead", "open_seekable": "TKRead", "read_json": "TKRead",
@@ -44,7 +46,10 @@ STORAGE_KIND = {
     "write_file": "TKWrite", "write_file_cas": "TKWrite", "write_json": "TKWrite", "makedirs": "TKWrite",
     "list_files": "TKList",
 }
-# calls that touch neither storage nor the lock and are taken not to fail for storage reasons
+# calls that touch neither storage nor the lock.  INSIDE a `try` that swallows Exception they leave no trace in the tail;
+# OUTSIDE one they are emitted as `TCall TKCompute false`: Transaction.commit's `except Exception` arm does not ask WHY
+# something raised -- int("x"), next() of an empty iterator, json.loads of a damaged document, d[k] after the flip
+# reach the deleting rollback exactly like a storage error.
 PURE_NAMES = {
     "len", "int", "str", "list", "dict", "set", "tuple", "sorted", "max", "min", "any", "all", "next", "iter", "range", "enumerate",
     "isinstance", "getattr", "hasattr", "repr", "bool", "float", "zip", "map", "filter", "reversed", "sum", "abs", "id", "type",
@@ -147,7 +152,38 @@ def swallows_exception(t: ast.Try) -> bool:
     return False
 
 
+SAFE_CMP = (ast.Is, ast.IsNot, ast.Eq, ast.NotEq)
+# expression nodes that cannot raise for a reason worth modelling when their operands do not: names, constants, attribute
+# reads, displays, `not` / and / or, identity and (in)equality tests, conditional expressions, f-strings (formatting a local
+# value for a log record is trusted not to raise)
+SAFE_NODES = (ast.Name, ast.Constant, ast.Attribute, ast.List, ast.Tuple, ast.Set, ast.Dict, ast.BoolOp, ast.IfExp,
+              ast.JoinedStr, ast.FormattedValue, ast.keyword, ast.expr_context, ast.boolop, ast.cmpop, ast.unaryop, ast.operator)
+
+
+def node_is_safe(n: ast.AST) -> bool:
+    if isinstance(n, ast.UnaryOp):
+        return isinstance(n.op, ast.Not) or isinstance(n.operand, ast.Constant)
+    if isinstance(n, ast.Compare):
+        return all(isinstance(o, SAFE_CMP) for o in n.ops)
+    return isinstance(n, SAFE_NODES)
+
+
+def target_is_safe(t: ast.AST) -> bool:
+    """`x = ...` / `self.a = ...`: binding a name or setting an attribute of a plain object."""
+    while isinstance(t, ast.Attribute):
+        t = t.value
+    return isinstance(t, ast.Name)
+
+
 class Walker:
+    def compute(self, what: str, guarded: bool, where: str):
+        """Code that touches neither storage nor the lock but can raise.  Swallowed by an enclosing try: no trace.  Otherwise
+        a fallible, unguarded step of the tail."""
+        if guarded:
+            return EPS
+        self.notes.append(f"{COMPUTE} UNGUARDED  {what[:70]}  at {where}")
+        return ("call", COMPUTE, False)
+
     def __init__(self, src: str):
         self.src = src
         self.mods: Dict[str, ast.Module] = {}
@@ -236,30 +272,32 @@ class Walker:
                 self._bind(c, mf, st_alias, mgr_alias, skip_self=False)
                 return self.region(mf.body, guarded, cls, mf, stack + ((cls, "::" + parts[0]),))[0]
         # known to touch neither storage nor the lock
-        if name in PURE_NAMES or parts[0] == "logger" or (parts[-1][:1].isupper() and len(parts) <= 2):
-            return EPS
+        if parts[0] == "logger" and len(parts) == 2:
+            return EPS                           # a logging statement: `logging` reports errors of handlers itself, never raises them
+        if name in PURE_NAMES or (parts[-1][:1].isupper() and len(parts) <= 2):
+            return self.compute(name + "(...)", guarded, where)
         if len(parts) >= 2 and parts[0] != "self":
             root = parts[0]
             local_names = {a.arg for a in fn.args.args} | {n.id for n in ast.walk(fn) if isinstance(n, ast.Name) and isinstance(n.ctx, ast.Store)}
             if (root in local_names or root.startswith("(")) and root not in st_alias and root not in mgr_alias:
-                return EPS                       # a method of a local value (list / dict / str / dataclass ...)
+                return self.compute(name + "(...)", guarded, where)      # a method of a local value (list / dict / str / dataclass ...)
         if len(parts) >= 2 and parts[0] != "self":
             mod = self.module_of(cls)
             consts = {t.id for st in mod.body if isinstance(st, (ast.Assign, ast.AnnAssign))
                       for t in (st.targets if isinstance(st, ast.Assign) else [st.target]) if isinstance(t, ast.Name)}
             imported = {(a.asname or a.name).split(".")[0] for st in ast.walk(mod) if isinstance(st, (ast.Import, ast.ImportFrom)) for a in st.names}
             if parts[0] in consts:
-                return EPS                       # a method of a module-level constant (compiled regex ...)
+                return self.compute(name + "(...)", guarded, where)      # a method of a module-level constant (compiled regex ...)
             if parts[0] in imported:
                 if parts[0] in ("os", "shutil", "io", "tempfile", "fcntl", "boto3", "pathlib", "subprocess") and not name.startswith("os.path."):
                     self.notes.append(f"TKOther {'guarded' if guarded else 'UNGUARDED'}  {name}  at {where}")
                     return ("call", "TKOther", guarded)      # I/O that bypasses the storage backend
-                return EPS
+                return self.compute(name + "(...)", guarded, where)
         if name == "open":
             self.notes.append(f"TKOther {'guarded' if guarded else 'UNGUARDED'}  {name}  at {where}")
             return ("call", "TKOther", guarded)
         if len(parts) >= 3 and parts[0] == "self" and parts[1].startswith("_") and parts[1] not in ("_lock",):
-            return EPS                           # a method of a private container attribute (self._operations.append ...)
+            return self.compute(name + "(...)", guarded, where)          # a method of a private container attribute (self._operations.append ...)
         raise Unsupported(f"post-commit tail: call outside the known vocabulary: {name} at {where}")
 
     def _bind(self, c: ast.Call, callee: ast.FunctionDef, st_alias: set, mgr_alias: Dict[str, str], skip_self: bool) -> None:
@@ -295,7 +333,19 @@ class Walker:
                 visit(ch)
             if isinstance(n, ast.Call):
                 out.append(self.call(n, guarded, cls, fn, stack))
+            elif not node_is_safe(n) and not isinstance(n, ast.comprehension):
+                # a subscript, arithmetic, `in`, an ordering test, a comprehension, unpacking ...: can raise
+                out.append(self.compute(ast.unparse(n), guarded, f"{cls}.{fn.name}:{getattr(n, 'lineno', '?')}"))
         visit(node)
+        return seq(*out)
+
+    def targets(self, ts: List[ast.AST], guarded: bool, cls: str, fn: ast.FunctionDef, stack) -> tuple:
+        """What binding the targets of an assignment / a loop can add: subscripted targets and unpacking can raise."""
+        out = []
+        for t in ts:
+            if not target_is_safe(t):
+                out.append(self.exprs(t, guarded, cls, fn, stack) if isinstance(t, ast.Subscript)
+                           else self.compute("unpack " + ast.unparse(t), guarded, f"{cls}.{fn.name}:{t.lineno}"))
         return seq(*out)
 
     # ---- a whole block executed in the tail
@@ -315,8 +365,11 @@ class Walker:
             if isinstance(s.value, ast.Constant):
                 return EPS, False
             return E(s.value), False
-        if isinstance(s, (ast.Assign, ast.AnnAssign, ast.AugAssign)):
-            return E(s.value), False
+        if isinstance(s, ast.AugAssign):
+            return seq(E(s.value), self.compute(ast.unparse(s), guarded, f"{cls}.{fn.name}:{s.lineno}")), False
+        if isinstance(s, (ast.Assign, ast.AnnAssign)):
+            tg = s.targets if isinstance(s, ast.Assign) else [s.target]
+            return seq(E(s.value), self.targets(tg, guarded, cls, fn, stack)), False
         if isinstance(s, ast.Return):
             return E(s.value), True
         if isinstance(s, (ast.Continue, ast.Break)):
@@ -329,6 +382,7 @@ class Walker:
             return seq(E(s.test), alt(a, b)), ja or jb
         if isinstance(s, ast.For):
             (a, _ja), (b, jb) = R(s.body), R(s.orelse)
+            a = seq(self.targets([s.target], guarded, cls, fn, stack), a)
             return seq(E(s.iter), star(a), b), jb or any(isinstance(n, ast.Return) for x in s.body for n in ast.walk(x))
         if isinstance(s, ast.While):
             (a, _ja), (b, jb) = R(s.body), R(s.orelse)
@@ -425,6 +479,10 @@ class Walker:
                 visit(s)
                 later = order[[k for k, c in enumerate(order) if c is site][0] + 1:]
                 r = seq(*[self.call(c, guarded, cls, fn, stack) for c in later])
+                tg = s.targets if isinstance(s, ast.Assign) else ([s.target] if isinstance(s, (ast.AnnAssign, ast.AugAssign)) else [])
+                if s.value is not site or isinstance(s, ast.AugAssign) or not all(target_is_safe(t) for t in tg):
+                    # the result of the commit call is used by a larger expression / a non-trivial binding, evaluated after the flip
+                    r = seq(r, self.compute(ast.unparse(s), guarded, f"{cls}.{fname}:{s.lineno}"))
                 return r, not isinstance(s, ast.Return), guarded
             if isinstance(s, ast.If):
                 if contains(s.test):
